@@ -15,27 +15,22 @@ open Tickit
 
 /-! ### `%d` -/
 
-/-- Decimal digits of a natural number, most significant first (`%u`). -/
-def showNat (n : Nat) : List UInt8 :=
-  if h : n < 10 then [UInt8.ofNat (48 + n)]
-  else showNat (n / 10) ++ [UInt8.ofNat (48 + n % 10)]
-decreasing_by omega
+/-- Decimal digits of a natural number, most significant first (`%u`); `fuel` bounds the number of digits. -/
+def showNatF : Nat → Nat → List UInt8
+  | 0, _ => []
+  | fuel + 1, n => if n < 10 then [UInt8.ofNat (48 + n)] else showNatF fuel (n / 10) ++ [UInt8.ofNat (48 + n % 10)]
+
+def showNat (n : Nat) : List UInt8 := showNatF (n + 1) n
 
 /-- `%d`. -/
 def showInt (i : Int) : List UInt8 :=
   if i < 0 then 0x2d :: showNat (-i).toNat else showNat i.toNat
 
-/-- Reading a decimal number back (`strtol`-like: optional `-`, then digits only). -/
-def readNat (bs : List UInt8) : Option Nat :=
-  if bs = [] then none
-  else bs.foldl (fun acc b => match acc with
-    | none => none
-    | some a => if VT.isDigit b then some (a * 10 + (b.toNat - 48)) else none) (some 0)
-
+/-- Reading `%d` output back (`strtol`-like: optional `-`, then digits only). -/
 def readInt (bs : List UInt8) : Option Int :=
   match bs with
-  | 0x2d :: rest => (readNat rest).map (fun n => -(n : Int))
-  | _ => (readNat bs).map (fun n => (n : Int))
+  | [] => none
+  | b :: rest => if b = 0x2d then (VT.readNat rest).map (fun n => -(n : Int)) else (VT.readNat bs).map (fun n => (n : Int))
 
 /-- `ESC [` + body. -/
 def csi (body : List UInt8) : List UInt8 := 0x1b :: 0x5b :: body
@@ -278,6 +273,23 @@ def scrollGrid (rect : Rect) (downward rightward : Int) (vt : VTState) : Int →
 def printGrid (cps : List Nat) (vt : VTState) : Int → Int → Cell := fun l c =>
   if l = vt.row ∧ vt.col ≤ c ∧ c < vt.col + cps.length then ⟨cps.getD (c - vt.col).toNat 32, vt.bg, vt.rv⟩
   else vt.grid l c
+
+/-- The screen states the requests are specified on: tokenizer in the ground state, cursor on the screen,
+    no margins set. -/
+structure WF (vt : VTState) : Prop where
+  ground : vt.ps = .ground
+  row_lo : 0 ≤ vt.row
+  row_hi : vt.row < vt.lines
+  col_lo : 0 ≤ vt.col
+  col_hi : vt.col < vt.cols
+  mtop : vt.top = 0
+  mbot : vt.bottom = vt.lines - 1
+  mleft : vt.left = 0
+  mright : vt.right = vt.cols - 1
+
+/-- The probed DECSLRM capability is truthful: a terminal that answered the DECRQM probe positively has DECLRMM
+    set (start-up sends `CSI ? 69 h` before asking). -/
+def CapsOK (caps : Caps) (vt : VTState) : Prop := caps.slrm = true → vt.declrmm = true
 
 /-- Margins are the full screen. -/
 def marginsReset (vt : VTState) : Prop :=
